@@ -107,8 +107,13 @@ extern unsigned int  used_kinds;
 #define K_COMPARE 256u
 #define K_BYTES 512u
 /* only element operations of the kinds in mask were used since entry (C13: requirement minimality; C09: none at all) */
-#define ONLY_KINDS(mask)    ((used_kinds & ~(unsigned int) (mask)) == (__CPROVER_old (used_kinds) & ~(unsigned int) (mask)))
-#define ONLY_KINDS_LE(mask) ((used_kinds & ~(unsigned int) (mask)) == (__CPROVER_loop_entry (used_kinds) & ~(unsigned int) (mask)))
+#ifdef ELEM_TRIVIAL
+#define K_FAST (K_BYTES | K_ASSIGN_COPY)     /* trivially copyable and assignable twin: byte copies and std::fill are allowed means */
+#else
+#define K_FAST 0u
+#endif
+#define ONLY_KINDS(mask)    ((mask) == 0 ? used_kinds == __CPROVER_old (used_kinds) : (used_kinds & ~(unsigned int) ((mask) | K_FAST)) == (__CPROVER_old (used_kinds) & ~(unsigned int) ((mask) | K_FAST)))
+#define ONLY_KINDS_LE(mask) ((used_kinds & ~(unsigned int) ((mask) | K_FAST)) == (__CPROVER_loop_entry (used_kinds) & ~(unsigned int) ((mask) | K_FAST)))
 
 /* ---- pointer predicates (quantifier-free, over __CPROVER_same_object / POINTER_OFFSET) ------ */
 #define OFF(p)        ((unsigned long) __CPROVER_POINTER_OFFSET (p))
